@@ -373,6 +373,42 @@ let opt_check line =
      | (w, g) :: _ -> verdict false ("expected:" ^ w ^ "-observed:" ^ g))
   | _ -> verdict false ("outcome:" ^ i)
 
+(* ---- tim: skip_ext_time made visible by coarse timing, and the runner-only bytes_format.
+   "s #R F:se=1,bf=0 E:.. P:.. Q:.. #B path|lvl|..|benchlvl .." -> "T path=S|N .. #Z bin|dec" ---- *)
+let split_bf spec : string * bool option =
+  let kvs = List.filter (fun x -> x <> "") (String.split_on_char ',' spec) in
+  let bf = List.fold_left (fun acc kv -> if String.length kv > 3 && String.sub kv 0 3 = "bf=" then Some (kv = "bf=1") else acc) None kvs in
+  (String.concat "," (List.filter (fun kv -> not (String.length kv > 3 && String.sub kv 0 3 = "bf=")) kvs), bf)
+
+let tim_gen use_spec line =
+  let secs = sections line in
+  let src = List.map (fun t -> let (k, spec) = split_kv t in (k, split_bf spec)) (nonempty (section secs "R")) in
+  let get k = match List.assoc_opt k src with Some (s, _) -> parse_fields s | None -> o_default in
+  let bf k = match List.assoc_opt k src with Some (_, b) -> b | None -> None in
+  let runner = (if use_spec then spec_runner else runner_level) (get "P") (get "F") (get "E") (get "Q") in
+  let binary =
+    if use_spec then (match first_some [bf "Q"; bf "F"; bf "E"; bf "P"] with Some b -> b | None -> false)
+    else bytes_format_level (bf "P") (bf "F") (bf "E") (bf "Q") in
+  let entries = List.map (fun tok ->
+      match String.split_on_char '|' tok with
+      | path :: lvls when lvls <> [] ->
+        let rl = List.rev lvls in
+        let bench = parse_level (List.hd rl) and groups = List.map parse_level (List.rev (List.tl rl)) in
+        let eff = (if use_spec then spec_effective else resolve) runner groups bench in
+        path ^ "=" ^ (if effective_skip_ext eff then "S" else "N")
+      | _ -> failwith ("bad bench entry " ^ tok)) (nonempty (section secs "B")) in
+  "T " ^ String.concat " " entries ^ " #Z " ^ (if binary then "bin" else "dec")
+
+let tim_check line =
+  let (c, i) = split_sb line in
+  match String.index_opt i '#' with
+  | Some _ when String.length i > 2 && String.sub i 0 2 = "T " ->
+    let isecs = sections i in
+    let want = tim_gen true (c ^ " #B " ^ String.concat " " (section isecs "B")) in
+    let got = "T " ^ String.concat " " (List.tl (nonempty (section isecs ""))) ^ " #Z " ^ String.concat " " (nonempty (section isecs "Z")) in
+    verdict (want = got) ("expected:" ^ String.concat "," (String.split_on_char ' ' want))
+  | _ -> verdict false ("outcome:" ^ i)
+
 let dispatch mode line =
   match mode with
   | "ismatch" -> ismatch line
@@ -387,6 +423,8 @@ let dispatch mode line =
   | "into.sb" -> into_check line
   | "opt" -> "O " ^ opt_gen false line
   | "opt.sb" -> opt_check line
+  | "tim" -> tim_gen false line
+  | "tim.sb" -> tim_check line
   | _ -> failwith ("unknown mode " ^ mode)
 
 let () = main dispatch
